@@ -138,19 +138,16 @@ Fixpoint merge_bundles (ft : ftable) (dd : doc) (bs : list (string * bundle)) : 
       end
   end.
 
-(* ProvBundle.unified() for a bundle of a document: returns the new (loose) bundle
-   and the source bundle with whatever its manager picked up *)
-Definition bundle_unified (par : option nsm) (ft : ftable) (b : bundle)
-  : bundle * result bundle :=
-  match unified_records (mkCtx par ft) b with
-  | OOD => (b, OutOfDomain)
-  | Fail m e => (with_ns b m, Raise e)
-  | Done m urecs =>
-      let src := with_ns b m in
+(* ProvBundle.unified() for a bundle of a document: the new (loose) bundle *)
+Definition bundle_unified (ft : ftable) (b : bundle) : result bundle :=
+  match unified_records ft b with
+  | OutOfDomain => OutOfDomain
+  | Raise e => Raise e
+  | OK urecs =>
       match add_records None ft (bundle_init (bid b)) urecs with
-      | (nb, OK _) => (src, OK nb)
-      | (_, Raise e) => (src, Raise e)
-      | (_, OutOfDomain) => (src, OutOfDomain)
+      | (nb, OK _) => OK nb
+      | (_, Raise e) => Raise e
+      | (_, OutOfDomain) => OutOfDomain
       end
   end.
 
@@ -169,23 +166,20 @@ Definition attach_bundle (dd : doc) (b : bundle) : doc * result unit :=
       end
   end.
 
-(* the bundles of a document, unified one after the other and attached to [nd];
-   the source bundles are updated in place *)
-Fixpoint unify_bundles (ft : ftable) (srcmain : nsm) (bs : list (string * bundle)) (nd : doc)
-  : list (string * bundle) * result doc :=
+(* the bundles of a document, unified one after the other and attached to [nd] *)
+Fixpoint unify_bundles (ft : ftable) (bs : list (string * bundle)) (nd : doc) : result doc :=
   match bs with
-  | [] => ([], OK nd)
+  | [] => OK nd
   | (k, b) :: rest =>
-      match bundle_unified (Some srcmain) ft b with
-      | (b', OK nb) =>
+      match bundle_unified ft b with
+      | OK nb =>
           match attach_bundle nd nb with
-          | (nd', OK _) =>
-              let '(rest', r) := unify_bundles ft srcmain rest nd' in ((k, b') :: rest', r)
-          | (_, Raise e) => ((k, b') :: rest, Raise e)
-          | (_, OutOfDomain) => ((k, b') :: rest, OutOfDomain)
+          | (nd', OK _) => unify_bundles ft rest nd'
+          | (_, Raise e) => Raise e
+          | (_, OutOfDomain) => OutOfDomain
           end
-      | (b', Raise e) => ((k, b') :: rest, Raise e)
-      | (b', OutOfDomain) => ((k, b') :: rest, OutOfDomain)
+      | Raise e => Raise e
+      | OutOfDomain => OutOfDomain
       end
   end.
 
@@ -428,21 +422,18 @@ Definition step (w : world) (o : op) : world * res :=
                         | Some dn => set_default m0 (ns_uri dn)
                         | None => m0
                         end in
-              match unified_records (mkCtx None ft) src with
-              | OOD => (w, ROOD)
-              | Fail m e => (set_doc w d (mkD (with_ns src m) (dbundles dd)), RRaise e)
-              | Done m urecs =>
-                  let src' := with_ns src m in
+              match unified_records ft src with
+              | OutOfDomain => (w, ROOD)
+              | Raise e => (w, RRaise e)
+              | OK urecs =>
                   match add_records None ft (mkB None m1 [] []) urecs with
                   | (nmain, OK _) =>
-                      let '(bs', r) := unify_bundles ft (bns src') (dbundles dd) (mkD nmain []) in
-                      let w1 := set_doc w d (mkD src' bs') in
-                      match r with
-                      | OK nd => (mkW (wdocs w1 ++ [nd])%list ft, RHandle (length (wdocs w1)))
-                      | Raise e => (w1, RRaise e)
+                      match unify_bundles ft (dbundles dd) (mkD nmain []) with
+                      | OK nd => (mkW (wdocs w ++ [nd])%list ft, RHandle (length (wdocs w)))
+                      | Raise e => (w, RRaise e)
                       | OutOfDomain => (w, ROOD)
                       end
-                  | (_, Raise e) => (set_doc w d (mkD src' (dbundles dd)), RRaise e)
+                  | (_, Raise e) => (w, RRaise e)
                   | (_, OutOfDomain) => (w, ROOD)
                   end
               end
